@@ -21,6 +21,9 @@ import Bnum.Props.C08
 #print axioms Bnum.C08.i_saturating_pow_side
 #print axioms Bnum.C08.i_strict_pow
 #print axioms Bnum.C08.i_pow
+#print axioms Bnum.C08.i_wrapping_pow_proj
+#print axioms Bnum.C08.u_pow_projections
+#print axioms Bnum.C08.i_pow_projections
 #print axioms Bnum.C08.log_is_greatest
 #print axioms Bnum.C08.udivspec
 #print axioms Bnum.C08.one_le_of_ten
@@ -46,3 +49,5 @@ import Bnum.Props.C08
 #print axioms Bnum.C08.spec_powMod
 #print axioms Bnum.C08.spec_powCapped
 #print axioms Bnum.C08.spec_pow
+#print axioms Bnum.C08.spec_powWrapped
+#print axioms Bnum.C08.spec_saturating_pow
